@@ -11,7 +11,8 @@ from ..rounding import rule_Q5
 LEVEL_TEXT = ('Static lockstep rule on the view arrays of posterior(): the same repeat counts '
               'are applied on axis 0, in order, to points, log-likelihoods and blobs; plus '
               'purity: posterior() writes no state and its only rng draw is guarded by the '
-              'equal_weight parameter.')
+              'equal_weight parameter.'
+              ' Plus a path-wise symbolic evaluation of the repeat counts (stochastic-rounding form, order of the gathered rows) and the normalisation of the returned weights.')
 
 
 def run(ctx):
